@@ -40,7 +40,7 @@ LEVEL_NOTE = ("Trusts CPython's audit hooks (PEP 578) for eval/exec/compile/os.s
 
 
 def plan(tier):
-    return {"cases": 1500, "wall_s": 150} if tier == "quick" else {"cases": 60000, "wall_s": 1700}
+    return {"cases": 2500, "wall_s": 150} if tier == "quick" else {"cases": 60000, "wall_s": 1700}
 
 
 def payloads(rng, n):
@@ -123,9 +123,78 @@ def hostile_source(rng, n, tag, via_header=None):
     return "\n".join(ls) + "\n", pay, canaries
 
 
+def known_options():
+    """every option the command line of the tree under test knows (and therefore its configuration
+    file): hostile values are tried on all of them, also on ones added after this was written"""
+    try:
+        from fortls.interface import cli
+
+        return sorted({a.dest for a in cli("fortls")._actions
+                       if a.option_strings and a.dest not in ("help", "version", "config")})
+    except Exception:
+        return ["debug_log", "hover_language", "nthreads", "source_dirs", "pp_defs"]
+
+
+def hostile_value(rng, canary, k=None):
+    """values a configuration could carry that do something if they are interpreted instead of used:
+    shell/host-language text, factory specifications, file-creating handler descriptions, paths"""
+    forms = hostile_forms(canary)
+    return rng.choice(forms) if k is None else forms[k % len(forms)]
+
+
+NFORMS = 16
+ZOO_OPTS = 64  # room for options added later; indices beyond the known ones fall through
+
+
+def hostile_forms(canary):
+    return ([
+        f"$(touch {canary})", f"`touch {canary}`", f"__import__('os').system('touch {canary}')",
+        canary, [canary, f"; touch {canary}"],
+        {"()": "os.mkdir", "path": canary},
+        {"()": "os.system", "command": f"touch {canary}"},
+        {"version": 1, "handlers": {"h": {"class": "logging.FileHandler", "filename": canary}},
+         "root": {"handlers": ["h"], "level": "DEBUG"}},
+        {"version": 1, "formatters": {"f": {"()": "os.mkdir", "path": canary}}},
+        {"version": 1, "filters": {"f": {"()": "subprocess.Popen", "args": ["touch", canary]}}},
+        {"__class__": "os.system", "args": [f"touch {canary}"]},
+        {"py/object": "os.system", "py/reduce": [f"touch {canary}"]},
+        f"!!python/object/apply:os.system ['touch {canary}']",
+        {"file": canary, "mode": "w"}, {"filename": canary}, {"path": canary, "create": True},
+    ])
+
+
+def zoo_sched(i):
+    """enumerated: option number i % ZOO_OPTS of the tree under test x hostile form i // ZOO_OPTS,
+    alone in an otherwise valid configuration file, debug log on"""
+    opts = known_options()
+    if i % ZOO_OPTS >= len(opts):
+        return None
+    opt = opts[i % ZOO_OPTS]
+    c3 = f"{ROOT}/canary_zoo{i}"
+    cfg = {opt: hostile_forms(c3)[(i // ZOO_OPTS) % NFORMS]}
+    if opt != "debug_log":
+        cfg["debug_log"] = True
+    name = f"{ROOT}/src_{i}.f90"
+    src = f"module zoo_{i}\n  integer :: v\nend module zoo_{i}\n"
+    tree = {f"{ROOT}/victim.f90": "module victim\nend module victim\n", name: src,
+            f"{ROOT}/{['.fortlsrc', '.fortls.json', '.fortls'][i % 3]}": json.dumps(cfg)}
+    ops = [gen.initialize(0), gen.initialized(), gen.did_open(name, src),
+           gen.req(1, "textDocument/documentSymbol", {"textDocument": {"uri": gen.uri(name)}}),
+           gen.positional(2, "textDocument/hover", name, 1, 14),
+           gen.did_change(name, [{"text": src + "! x\n"}]),
+           gen.req(3, "workspace/symbol", {"query": ""}), gen.req(4, "shutdown"), gen.note("exit")]
+    return {"argv": ["--incremental_sync", "--disable_autoupdate"], "tree": tree, "ops": ops, "sync_kind": 2,
+            "strict_edits": False, "buggify": [], "canaries": [c3], "network": "down", "release_version": None,
+            "delivery": "config-zoo", "hostile_conditions": 0, "pool": {"assign": [0]}, "oracles": ["c17net"]}
+
+
 def gen_sched(g):
     rng = base.rng_for(g)
     i = g["i"]
+    if i < ZOO_OPTS * NFORMS:
+        z = zoo_sched(i)
+        if z is not None:
+            return z
     tag = gen.rand_ident(rng, 4)
     tree = {f"{ROOT}/victim.f90": "module victim\nend module victim\n"}
     canaries = []
@@ -185,6 +254,22 @@ def gen_sched(g):
                     "pp_defs:\n  A: !!python/object/apply:os.system ['touch " + cs3[0] + "']\n",
                 ])
             tree[f"{ROOT}/.fortlsrc"] = text
+    elif rng.random() < 0.3:
+        # a well-formed configuration file whose *values* are hostile, over every known option
+        c3 = f"{ROOT}/canary_{i * 10 + 9}"
+        canaries.append(c3)
+        cfg = {}
+        opts = known_options()
+        # mostly one hostile value per file: a loader that rejects the whole file for one
+        # ill-typed value would otherwise never let the others through
+        for o in rng.sample(opts, min(len(opts), rng.choice([1, 1, 1, 2, 5]))):
+            cfg[o] = hostile_value(rng, c3)
+        if rng.random() < 0.3:
+            o = rng.choice(opts)
+            cfg.setdefault(o + rng.choice(["_config", "_file", "s"]), hostile_value(rng, c3))
+        if rng.random() < 0.6:
+            cfg["debug_log"] = True
+        tree[f"{ROOT}/{rng.choice(['.fortlsrc', '.fortls.json', '.fortls'])}"] = json.dumps(cfg)
     lines = model.split_lines(src)
     if delivery == "startup" or delivery in ("config", "cli"):
         tree[name] = src
